@@ -105,7 +105,7 @@ def canon(v):
     import enum
     if isinstance(v, enum.Enum):
         return v.value
-    if v is None or isinstance(v, (bool, str)):
+    if v is None or isinstance(v, (bool, str, Fraction)):
         return v
     if isinstance(v, int):
         return Fraction(v)
@@ -477,8 +477,6 @@ def normalised_value(dom, v):
     if isinstance(v, list):
         if b == "BListStr":
             return [norm_s(x) if isinstance(x, str) else x for x in v]
-        if b == "BListFloat":
-            return [Fraction(x) for x in v]
         return [Fraction(x) if isinstance(x, (int, float)) and not isinstance(x, bool) else x for x in v]
     return v
 
@@ -841,8 +839,10 @@ def oracle_stored(case, obs):
         return fails
     built = obs["dump"]
     d = pdiff(obs["stored"], built)
+    family = "billing" if call.startswith("Billing") else "daily"
     for p, v in d:
-        fails.append(({"call": call + ".to_dict", "broken": "recorded != built", "field": ".".join(p), "profile": profile},
+        fails.append(({"call": call + ".to_dict", "broken": "recorded != built", "field": ".".join(p), "profile": profile,
+                       "family": family},
                       "%s: recorded %s = %r, the model was built with %r" % (call, ".".join(p), jsonable(v), jsonable(get_path(built, p)))))
     if not obs.get("stored_json_same", True):
         fails.append(({"call": call + ".to_json", "broken": "to_json != to_dict"}, "to_json and to_dict record different settings"))
@@ -853,7 +853,8 @@ def oracle_stored(case, obs):
                       "%s(model=%r): the stored model cannot be reloaded: %s %s" % (call, profile, rl["cls"], rl["msg"][:120])))
     else:
         for p, v in pdiff(rl["dump"], built):
-            fails.append(({"call": call + ".from_json", "broken": "reloaded != built", "field": ".".join(p), "profile": profile},
+            fails.append(({"call": call + ".from_json", "broken": "reloaded != built", "field": ".".join(p), "profile": profile,
+                           "family": family},
                           "%s: after reload %s = %r, built with %r" % (call, ".".join(p), jsonable(v), jsonable(get_path(built, p)))))
     return fails
 
